@@ -13,7 +13,7 @@ ENGINE = "e1-bounded-enumeration"
 MENU5 = ["Muss [1]", "Soll", "Soll [1]", "Soll [3]", "Muss [2] S[1]"]
 MENU3 = ["Muss [1]", "s", "Soll [3]"]
 CHAIN_SHAPE = (("G", (("G", (), (("S", ("F",)),)),), ()),)
-BOUNDS = {"quick": {"n5": 4, "n3": 4, "cers": 1}, "thorough": {"n5": 5, "n3": 6, "cers": 6}}
+BOUNDS = {"quick": {"n5": 4, "n3": 4, "cers": 1}, "thorough": {"n5": 5, "n3": 6, "cers": 2}}
 
 
 def describe(tier):
